@@ -125,19 +125,32 @@ def resolve(ctx):
 
 
 def seq1(ctx):
+    """One worker => the tasks run in the calling thread. Two sites cooperate: __call__ takes the sequential path either
+    on the RESOLVED n_jobs == 1, or on "the backend is the sequential one" - and in the second form it relies on every
+    pool backend's configure() falling back to SequentialBackend on the resolved value (a requested -1 may resolve to 1)."""
     call = F(ctx, "Parallel.__call__")
     g = cfg_of(call)
-    tests = [n for n in nodes_of_type(call, ast.If) if unparse(n.test) == "n_jobs == 1"]
-    ctx.need(tests, "`n_jobs == 1` branch not found in __call__")
-    t = tests[0]
-    ctx.check(any(call_name(c) == "self._get_sequential_output" for s in t.body for c in calls_in(s)) and isinstance(t.body[-1], ast.Return), t,
-              "n_jobs == 1 => sequential output in the calling thread, then return")
+    seq = [c for c in calls_in(call) if call_name(c) == "self._get_sequential_output"]
+    if not seq:
+        ctx.bad(call, "__call__ no longer has a sequential path for a single worker", key=PAR + "::Parallel.__call__::sequential path")
+        return
+    facts = g.fact_set(g.nodes_of(seq[0]))
+    by_count = ("n_jobs == 1", True) in facts
+    by_backend = any(p and str(t).replace(" ", "") in ("isinstance(self._backend,SequentialBackend)", "type(self._backend)isSequentialBackend") for (t, p) in facts)
+    ctx.check(by_count or by_backend, seq[0], "the sequential path is taken on %s" % ("the resolved n_jobs == 1" if by_count else "the sequential backend"),
+              "the sequential path of __call__ is taken under %s" % sorted(facts))
+    rets = [r for r in nodes_of_type(call, ast.Return) if g.every_path_to(g.nodes_of(r), g.nodes_of(seq[0]))]
+    ctx.check(bool(rets), seq[0], "then returns without touching the dispatch machinery")
     go = [c for c in calls_in(call) if call_name(c) in ("self._get_outputs", "self._backend.start_call")]
     for c in go:
-        ctx.check(any(i is t and not pol for (i, _, pol) in g.conditions_at(g.nodes_of(c))), c, "%s is reached only when n_jobs != 1" % call_name(c))
-    nj = [a for a in nodes_of_type(call, ast.Assign) if "n_jobs" in stores_to(a)]
-    ctx.check(len(nj) == 2 and {call_name(a.value) for a in nj} == {"self._initialize_backend", "self._effective_n_jobs"}, nj[0] if nj else call,
-              "the n_jobs tested is what the backend resolved (configure / effective_n_jobs)")
+        ctx.check(not g.path_exists(g.nodes_of(seq[0]), g.nodes_of(c)), c, "%s is not reached from the sequential path" % call_name(c))
+        fc = g.fact_set(g.nodes_of(c))
+        ctx.check((("n_jobs == 1", False) in fc) if by_count else any((not p) and "SequentialBackend" in str(t) for (t, p) in fc) if by_backend else False, c,
+                  "%s is reached only when the sequential path is not taken" % call_name(c))
+    if by_count:
+        nj = [a for a in nodes_of_type(call, ast.Assign) if "n_jobs" in stores_to(a)]
+        ctx.check(len(nj) >= 1 and {call_name(a.value) for a in nj} <= {"self._initialize_backend", "self._effective_n_jobs"}, nj[0] if nj else call,
+                  "the n_jobs tested is what the backend resolved (configure / effective_n_jobs)")
     so = F(ctx, "Parallel._get_sequential_output")
     ctx.check(not any(call_attr(c) == "submit" for c in calls_in(so)), so, "the sequential path never submits to a backend")
     for q in ("ThreadingBackend.configure", "MultiprocessingBackend.configure", "LokyBackend.configure"):
@@ -145,12 +158,17 @@ def seq1(ctx):
         gg = cfg_of(f)
         t1 = [n for n in nodes_of_type(f, ast.If) if unparse(n.test) == "n_jobs == 1"]
         ok = bool(t1) and any(isinstance(s, ast.Raise) and isinstance(s.exc, ast.Call) and call_name(s.exc) == "FallbackToBackend" and s.exc.args and call_name(s.exc.args[0]) == "SequentialBackend" for s in t1[0].body)
-        ctx.check(ok, t1[0] if t1 else f, "%s: resolved n_jobs == 1 => FallbackToBackend(SequentialBackend)" % q, "%s no longer falls back to the sequential backend for n_jobs == 1" % q,
+        ctx.check(ok, t1[0] if t1 else f, "%s: n_jobs == 1 => FallbackToBackend(SequentialBackend)" % q, "%s no longer falls back to the sequential backend for n_jobs == 1" % q,
                   key=None if t1 else "%s::%s::n_jobs == 1 fallback" % (BK, q))
         if ok:
             nl = kwarg(t1[0].body[-1].exc.args[0], "nesting_level")
             ctx.check(nl is not None and dotted(nl) == "self.nesting_level", t1[0], "the fallback keeps the nesting level")
-
+            res = [a for a in nodes_of_type(f, ast.Assign) if "n_jobs" in stores_to(a) and isinstance(a.value, ast.Call) and call_name(a.value) == "self.effective_n_jobs"]
+            resolved_first = bool(res) and gg.every_path_to(gg.nodes_of(t1[0]), gg.nodes_of_all(res))
+            if by_backend and not by_count:
+                ctx.check(resolved_first, t1[0], "%s falls back on the RESOLVED n_jobs (which __call__ relies on)" % q,
+                          "%s tests the requested n_jobs before resolving it, and __call__ chooses the sequential path by the backend's type: a request that only resolves to 1 "
+                          "(n_jobs=-1 on one CPU, n_jobs <= -cpu_count) runs in a pool instead of the calling thread" % q)
 
 def poolsize(ctx):
     for q, ctor in (("ThreadingBackend.configure", None), ("MultiprocessingBackend.configure", "MemmappingPool"), ("LokyBackend.configure", "get_memmapping_executor")):
@@ -280,13 +298,24 @@ def cpu_min(ctx):
     ctx.check(isinstance(inner, ast.Call) and call_name(inner) == "min" and "_cpu_count_user(os_cpu_count)" in atoms and any(a.startswith("os.cpu_count()") or a == "os_cpu_count" for a in atoms), agg[0],
               "min-tree contains the OS count and the user-level count (%s)" % atoms, "min-tree is %s" % atoms)
     u = ctx.repo.func(CTXF, "_cpu_count_user")
-    rets = nodes_of_type(u, ast.Return)
-    ctx.need(len(rets) == 1, "_cpu_count_user has not exactly one return")
-    atoms = [unparse(a) for a in _min_atoms(rets[0].value, u)]
-    ctx.check(isinstance(rets[0].value, ast.Call) and call_name(rets[0].value) == "min", rets[0], "_cpu_count_user returns a min(...)")
-    ctx.check("_cpu_count_affinity(os_cpu_count)" in atoms, rets[0], "the minimum honours CPU affinity", "CPU affinity is no longer part of the minimum: %s" % atoms)
-    ctx.check(any("LOKY_MAX_CPU_COUNT" in a and a.startswith("int(os.environ.get(") for a in atoms), rets[0], "the minimum honours LOKY_MAX_CPU_COUNT", "LOKY_MAX_CPU_COUNT is no longer part of the minimum: %s" % atoms)
-    ctx.check("_cpu_count_cgroup(os_cpu_count)" in atoms, rets[0], "the minimum honours the cgroup quota")
+    rets = [r for r in nodes_of_type(u, ast.Return) if r.value is not None]
+    ctx.need(len(rets) >= 1, "_cpu_count_user returns nothing")
+    for r0 in rets:
+        # every answer is the minimum, computed NOW: the affinity mask, the cgroup quota and the environment can all change
+        # while the process runs, so a remembered answer (a module-level cache, an attribute) is not the minimum any more
+        v0 = r0.value
+        if isinstance(v0, ast.Name):
+            d0 = _single_defs(u, v0.id)
+            v0 = d0[0].value if len(d0) == 1 else v0
+        atoms = [unparse(a) for a in _min_atoms(v0, u)]
+        if not (isinstance(v0, ast.Call) and call_name(v0) == "min"):
+            ctx.bad(r0, "_cpu_count_user answers `%s`, which is not the minimum over affinity, cgroup quota and LOKY_MAX_CPU_COUNT evaluated at the time of the call "
+                        "(a remembered answer ignores a later change of the affinity mask or of the quota)" % unparse(r0.value, 60))
+            continue
+        ctx.ok(r0, "_cpu_count_user returns a min(...)")
+        ctx.check("_cpu_count_affinity(os_cpu_count)" in atoms, r0, "the minimum honours CPU affinity", "CPU affinity is no longer part of the minimum: %s" % atoms)
+        ctx.check(any("LOKY_MAX_CPU_COUNT" in a and a.startswith("int(os.environ.get(") for a in atoms), r0, "the minimum honours LOKY_MAX_CPU_COUNT", "LOKY_MAX_CPU_COUNT is no longer part of the minimum: %s" % atoms)
+        ctx.check("_cpu_count_cgroup(os_cpu_count)" in atoms, r0, "the minimum honours the cgroup quota")
     cgf = ctx.repo.func(CTXF, "_cpu_count_cgroup")
     gcg = cfg_of(cgf)
     from ..core import cond_facts
